@@ -133,7 +133,7 @@ var _ vmcommon.UserAccountHandler = (*Handle)(nil)
 // LoadAccount implements vmcommon.AccountsAdapter: a fresh handle, account created when absent.
 func (s *Store) LoadAccount(address []byte) (vmcommon.AccountHandler, error) {
 	kind := DepLoadAccount
-	if s.PauseLookupSoft && bytes.Equal(address, vmcommon.SystemAccountAddress) {
+	if s.PauseLookupSoft && bytes.Equal(address, spec.SystemAccount) {
 		kind = DepPauseLookup
 	}
 	if s.Faults.hit(kind) {
